@@ -9,12 +9,15 @@ open IsoMdl IsoMdl.Cose
 bytes and protected header" means in terms of the facts -/
 def IssuerSignatureOk (f : Facts) : Prop :=
   f.issuerKeyParses = true ∧ (∀ a, f.issuerAlg = .assigned a → a = -7) ∧
-  f.issuerPayloadAttached = true ∧ f.issuerSigParses = true ∧ f.issuerSigAccepts = true
+  f.issuerPayloadAttached = true ∧ f.issuerSigParses = true ∧ f.issuerSigAccepts = true ∧
+  -- and the disclosed data is bound to that MSO (C04)
+  f.msoDecodes = true ∧ f.docTypeMatches = true ∧ f.digestsMatch = true
 
 theorem issuerAuthentication_iff (f : Facts) : issuerAuthentication f = true ↔ IssuerSignatureOk f := by
   unfold issuerAuthentication IssuerSignatureOk verifySign1 sign1Body selectPayload prim algMismatch
   cases hk : f.issuerKeyParses <;> cases ha : f.issuerAlg <;> cases hp : f.issuerPayloadAttached <;>
-    cases hs : f.issuerSigParses <;> cases hacc : f.issuerSigAccepts <;> simp
+    cases hs : f.issuerSigParses <;> cases hacc : f.issuerSigAccepts <;> cases hm : f.msoDecodes <;>
+    cases hdt : f.docTypeMatches <;> cases hdg : f.digestsMatch <;> simp
   all_goals
     (rename_i a
      by_cases h : a = -7 <;> simp [h])
@@ -84,7 +87,7 @@ theorem C03_not_valid_cases (f : Facts) (hnp : (handleResponse f).panics = false
     (handleResponse f).issuer ≠ .valid := by
   intro hv
   have := (C03_issuer_valid_iff f hnp).mp hv
-  obtain ⟨_, _, _, _, hx, hxp, _, _, hc, hk, _, hp, hs, ha⟩ := this
+  obtain ⟨_, _, _, _, hx, hxp, _, _, hc, hk, _, hp, hs, ha, _, _, _⟩ := this
   rcases h with h | h | h | h | h | h | h <;> simp_all
 
 /-- non-vacuity: an honest response is Valid/Valid without errors; one flipped fact is not. -/
